@@ -413,6 +413,12 @@ func (c *c06Case) Run(ctx *core.Ctx) {
 			content, wh, wf = `<template #pagetitle>H1</template><template v-slot:foot>F1</template>`, "H1", "F1"
 		case "none":
 			content, wh, wf = ``, "FBH", "FBF"
+		case "nonascii": // the parser lower-cases ASCII letters only
+			comp = `<div class="c"><header><slot name="Ärger">FBH</slot></header><footer><slot name="ÉTÉ">FBF</slot></footer></div>`
+			content, wh, wf = `<template #Ärger>H1</template><template v-slot:ÉTÉ>F1</template>`, "H1", "F1"
+		case "scopedpad": // spaces around the name that receives the slot's props
+			comp = `<div class="c"><header><slot name="pageTitle" :t="'H1'">FBH</slot></header><footer><slot name="Foot" :t="'F1'">FBF</slot></footer></div>`
+			content, wh, wf = `<template #pageTitle=" sp ">{{ sp.t }}</template><template v-slot:Foot=" { t } ">{{ t }}</template>`, "H1", "F1"
 		}
 		files = Files{"c.vuego": comp, "page.vuego": `<template include="c.vuego">` + content + `</template>`}
 		expectText("header", []string{wh}, "mixed-case-name")
@@ -582,7 +588,7 @@ func init() {
 			emit(&c06Case{Part: "layout", Var: "for-component", Kind: "dyn"})
 			emit(&c06Case{Part: "layout", Var: "for-component-short", Kind: "static"})
 			emit(&c06Case{Part: "layout", Var: "for-component-short", Kind: "dyn"})
-			for _, f := range []string{"hash", "vslot", "lower", "none"} {
+			for _, f := range []string{"hash", "vslot", "lower", "none", "nonascii", "scopedpad"} {
 				emit(&c06Case{Part: "case", Form: f})
 			}
 			for _, v := range []string{"prop", "boundprop", "frontmatter", "loopvar", "tmplvar"} {
